@@ -477,7 +477,7 @@ Section Round.
     Forall (fun p => ~ In TAB p) ((fst r :: map fmt (fst (snd r))) ++ cell_l (snd (snd r))).
   Proof.
     destruct r as [id [vals cell]]. intros (Hid & Hv & Hn & Hc). simpl in *.
-    apply Forall_app. split.
+    rewrite app_comm_cons. apply Forall_app. split.
     - constructor; [apply Hid|]. apply Forall_forall. intros p Hp. apply in_map_iff in Hp.
       destruct Hp as [v [E Hin]]. subst. rewrite Forall_forall in Hn. apply (Hn v Hin).
     - destruct cell as [m|]; simpl; [constructor; [apply Hc|constructor]|constructor].
@@ -487,7 +487,7 @@ Section Round.
     Forall (avoids brk) ((fst r :: map fmt (fst (snd r))) ++ cell_l (snd (snd r))).
   Proof.
     destruct r as [id [vals cell]]. intros (Hid & Hv & Hn & Hc). simpl in *.
-    apply Forall_app. split.
+    rewrite app_comm_cons. apply Forall_app. split.
     - constructor; [apply Hid|]. apply Forall_forall. intros p Hp. apply in_map_iff in Hp.
       destruct Hp as [v [E Hin]]. subst. rewrite Forall_forall in Hn. apply (Hn v Hin).
     - destruct cell as [m|]; simpl; [constructor; [apply Hc|constructor]|constructor].
@@ -535,18 +535,19 @@ Section Round.
     data_rows parse_num numeric (map line_of l)
     = ROk (map (fun r => (fst r, fst (snd r), lastf r)) l).
   Proof.
-    intros H. induction H as [|r l Hr Hl IH]; intros Hc; simpl; [reflexivity|].
+    intros H. induction H as [|r l Hr Hl IH]; intros Hc; [reflexivity|].
     inversion Hc as [|? ? Hc1 Hc2]; subst.
-    destruct (row_read r Hr) as (Hb & Hh & _ & Hf & _). rewrite Hb, Hh, Hf.
-    destruct r as [id [vals cell]]. destruct Hr as (Hid & Hv & Hn & Hcell). simpl in *.
+    cbn [map data_rows].
+    destruct (row_read r Hr) as (Hb & Hh & _ & Hf & _). rewrite Hb, Hh. cbv zeta. rewrite Hf.
     rewrite (IH Hc2).
-    destruct numeric, cell as [m|]; simpl in Hc1; try discriminate; simpl.
-    - rewrite app_nil_r. rewrite parse_all_fmt by exact Hn. unfold lastf. simpl.
-      rewrite app_comm_cons, <- (app_nil_r (id :: map fmt vals)).
-      destruct (snoc_exists vals Hv) as [vs [x Ex]]. subst vals. rewrite map_app. simpl map.
-      rewrite app_nil_r, app_comm_cons, !last_snoc. reflexivity.
-    - rewrite removelast_snoc. rewrite parse_all_fmt by exact Hn. unfold lastf. simpl.
-      rewrite app_comm_cons, last_snoc. reflexivity.
+    destruct r as [id [vals cell]]. destruct Hr as (Hid & Hv & Hn & Hcell). cbn [fst snd] in *.
+    assert (Hm : map fmt vals <> []) by (destruct vals; [congruence|discriminate]).
+    destruct numeric, cell as [m|]; cbn [is_some negb] in Hc1; try discriminate; cbn [cell_l map].
+    - rewrite app_nil_r. cbn [tl hd]. rewrite parse_all_fmt by exact Hn.
+      rewrite last_cons_ne by exact Hm. rewrite (last_map_ne fmt vals 0 []) by exact Hv.
+      unfold lastf. cbn [fst snd]. reflexivity.
+    - cbn [app tl hd]. rewrite removelast_snoc. rewrite parse_all_fmt by exact Hn.
+      rewrite app_comm_cons, last_snoc. unfold lastf. cbn [fst snd]. reflexivity.
   Qed.
 
   Lemma last_numeric_lines l : Forall row_ok l ->
@@ -619,7 +620,7 @@ Section Round.
   Proof.
     intros (W1 & W2 & _) Hs [Ho _] Hf Hl Hc.
     assert (Hm : Forall (fun vals => vals <> [] /\ Forall num_ok vals) (x_mat c)).
-    { unfold rect in W2. rewrite Forall_forall in *. intros vals Hin. split; [|apply Hf; exact Hin].
+    { unfold rect in W2. unfold faithful_on in Hf. rewrite Forall_forall in *. intros vals Hin. split; [|apply Hf; exact Hin].
       specialize (W2 vals Hin). destruct vals; [|discriminate]. destruct (x_sids c); [congruence|discriminate]. }
     pose proof (Forall_combine _ _ _ _ Ho (Forall_combine _ _ _ _ Hm Hc)) as F.
     eapply Forall_impl; [|exact F]. intros [id [vals cell]] (A & (B1 & B2) & C). simpl in *.
@@ -632,12 +633,9 @@ Section Round.
     /\ map (fun r : rowrec => fst (snd r)) (combine a (combine b c)) = b
     /\ map (fun r : rowrec => snd (snd r)) (combine a (combine b c)) = c.
   Proof.
-    intros H1 H2.
-    assert (L : length a = length (combine b c)) by (rewrite combine_length; lia).
-    split; [apply map_fst_combine; exact L|].
-    split.
-    - rewrite <- (map_map snd fst). rewrite map_snd_combine by exact L. apply map_fst_combine. lia.
-    - rewrite <- (map_map snd snd). rewrite map_snd_combine by exact L. apply map_snd_combine. lia.
+    revert b c. induction a as [|x a IH]; intros [|y b] [|z c] H1 H2; simpl in *; try discriminate.
+    - repeat split.
+    - destruct (IH b c) as (A & B & C); [lia|lia|]. rewrite A, B, C. repeat split.
   Qed.
 
   (* the written lines come back from the text *)
@@ -663,7 +661,7 @@ Section Round.
     assert (Ecells : cells = map (fun _ => None) (x_oids c)) by reflexivity.
     assert (Lc : length cells = length (x_oids c)) by (rewrite Ecells; apply map_length).
     assert (Fc : Forall (fun cell : option text => match cell with Some m => txt_ok m | None => True end) cells).
-    { rewrite Ecells. apply Forall_forall. intros x Hx. apply in_map_iff in Hx. destruct Hx as [? [E _]]. subst. exact I. }
+    { rewrite Ecells. apply Forall_forall. intros x Hx. apply in_map_iff in Hx. destruct Hx as [? [E _]]. subst. trivial. }
     pose proof (rows_ok c cells W Hs Hids Hf Lc Fc) as Hrows.
     rewrite row_lines_map. set (l := combine (x_oids c) (combine (x_mat c) cells)) in *.
     destruct W as (W1 & W2 & W3 & W4 & W5).
@@ -694,7 +692,7 @@ Section Round.
     assert (Hnum : forallb (fun r => isfloat parse_num (lastf r)) (r0 :: l') = true).
     { apply forallb_forall. intros r Hin. rewrite Forall_forall in Hrows. specialize (Hrows r Hin).
       assert (Hcn : snd (snd r) = None).
-      { assert (In (snd (snd r)) (map (fun r : rowrec => snd (snd r)) (r0 :: l'))) by (apply in_map; exact Hin).
+      { assert (In (snd (snd r)) (map (fun r : rowrec => snd (snd r)) (r0 :: l'))) by (apply (in_map (fun r : rowrec => snd (snd r))); exact Hin).
         rewrite P3, Ecells in H. apply in_map_iff in H. destruct H as [? [E _]]. congruence. }
       unfold lastf. rewrite Hcn. destruct Hrows as (_ & Hv & Hn & _).
       rewrite Forall_forall in Hn. destruct (Hn _ (last_In _ 0 Hv)) as (Hp & _).
@@ -702,11 +700,13 @@ Section Round.
     rewrite Hnum. cbn [orb].
     rewrite (data_rows_lines true (r0 :: l') Hrows).
     2:{ apply Forall_forall. intros r Hin.
-        assert (In (snd (snd r)) (map (fun r : rowrec => snd (snd r)) (r0 :: l'))) by (apply in_map; exact Hin).
+        assert (In (snd (snd r)) (map (fun r : rowrec => snd (snd r)) (r0 :: l'))) by (apply (in_map (fun r : rowrec => snd (snd r))); exact Hin).
         rewrite P3, Ecells in H. apply in_map_iff in H. destruct H as [? [E _]]. rewrite <- E. reflexivity. }
     cbn [e_md e_oids e_sids e_data e_name].
     rewrite !map_map. cbn [fst snd].
-    rewrite P1, P2.
+    assert (P1' : map (fun x : text * (list Z * option text) => fst x) (r0 :: l') = x_oids c) by exact P1.
+    assert (P2' : map (fun x : text * (list Z * option text) => fst (snd x)) (r0 :: l') = x_mat c) by exact P2.
+    rewrite P1', P2'.
     rewrite <- W1. rewrite (in_shape_all_triples _ _ W2). cbn [negb].
     apply tdup_false_NoDup in W3. apply tdup_false_NoDup in W4. rewrite W3, W4. cbn [orb].
     rewrite (dense_of_all_triples _ _ W2). reflexivity.
